@@ -1,5 +1,6 @@
 import Proofs.Uri.IpText
 import Proofs.Uri.Ip4
+import Proofs.Uri.NonAscii
 /-!
 # C16 — CoAP URIs and Uri-* options convert into each other without loss
 
@@ -228,37 +229,51 @@ theorem C16_reject_unsplittable (ip : IpOracle) (u : Bytes) (h : urlsplit ip u =
     setRequestUri ip u = .malformed := by
   simp [setRequestUri, h]
 
+/-- **Any `#` makes a text malformed** — whatever follows it, also nothing (`coap://h/a#`: the
+empty fragment identifier, which `urlparse` reports like an absent one, is rejected since the fix
+that looks for the `#` in the text). -/
+theorem C16_fragment_rejected (ip : IpOracle) (u : Bytes) (h : 35 ∈ u) :
+    setRequestUri ip u = .malformed := by
+  unfold setRequestUri
+  cases urlsplit ip u with
+  | none => rfl
+  | some p => simp [h]
+
 /-- The table of syntactic defects, in the order the code tests them.  For a text that splits
-into `p`: a fragment → Malformed; else no scheme → Incomplete; else a non-CoAP scheme → the
+into `p`: a `#` anywhere (a fragment identifier, possibly empty) → Malformed; else no scheme →
+Incomplete; else a non-CoAP scheme → the
 text becomes Proxy-Uri; else each of: no host, user info, a bracket in the authority that is not
 part of a leading `[literal]` with unreserved zone identifier followed by nothing or `:`, a
 path/query/host escape that is not UTF-8, a port that is not a number in 0..65535, an invalid IP
 literal → Malformed. -/
 theorem C16_rejection_table (ip : IpOracle) (u : Bytes) (p : Parsed) (hsplit : urlsplit ip u = some p) :
-    (p.fragment ≠ [] → setRequestUri ip u = .malformed) ∧
-    (p.fragment = [] → p.scheme = [] → setRequestUri ip u = .incomplete) ∧
-    (p.fragment = [] → p.scheme ≠ [] → p.scheme ∉ coapSchemes → setRequestUri ip u = .proxy) ∧
-    (p.fragment = [] → p.scheme ∈ coapSchemes →
+    (35 ∈ u → setRequestUri ip u = .malformed) ∧
+    (35 ∉ u → p.scheme = [] → setRequestUri ip u = .incomplete) ∧
+    (35 ∉ u → p.scheme ≠ [] → p.scheme ∉ coapSchemes → setRequestUri ip u = .proxy) ∧
+    (35 ∉ u → p.scheme ∈ coapSchemes →
       (hostnameOf p.netloc = none ∨ hasUserinfo p.netloc = true ∨ literalOk p.netloc = false ∨
         decodePath p.path = none ∨
         decodeQuery p.query = none ∨ portOf p.netloc = none ∨ undecidedHostinfo ip p.netloc = none ∨
         (∃ hn, hostnameOf p.netloc = some hn ∧
           (p.netloc.head? == some 91 || ip4Looking hn) = false ∧ unquoteStrict hn = none)) →
       setRequestUri ip u = .malformed) := by
-  unfold setRequestUri
-  rw [hsplit]
-  simp only
-  refine ⟨?_, ?_, ?_, ?_⟩
-  · intro hf; simp [fromParsed, hf]
-  · intro hf hs; simp [fromParsed, hf, hs]
+  refine ⟨C16_fragment_rejected ip u, ?_, ?_, ?_⟩
+  · intro hf hs
+    unfold setRequestUri
+    rw [hsplit]
+    simp [hf, fromParsed, hs]
   · intro hf hs hn
-    simp [fromParsed, hf, hs, hn]
+    unfold setRequestUri
+    rw [hsplit]
+    simp [hf, fromParsed, hs, hn]
   · intro hf hs hd
     have hc : coapSchemes.contains p.scheme = true := by simpa using hs
     have hne := coapScheme_ne_nil hs
+    unfold setRequestUri
+    rw [hsplit]
+    simp only [contains_false_of_not_mem hf, Bool.false_eq_true, ↓reduceIte]
     unfold fromParsed
-    simp only [hf, ne_eq, not_true_eq_false, ↓reduceIte, hne, hc, Bool.not_true,
-      Bool.false_eq_true]
+    simp only [↓reduceIte, hne, hc, Bool.not_true, Bool.false_eq_true]
     cases hhn : hostnameOf p.netloc with
     | none => rfl
     | some hn =>
@@ -293,13 +308,19 @@ theorem C16_rejection_table (ip : IpOracle) (u : Bytes) (p : Parsed) (hsplit : u
                   · rw [hund] at h; cases h
                   · rw [hhn] at h1; cases h1
                     rw [if_neg (by simp [h2])]
-                    simp [h3]
+                    have hhead : (p.netloc.head? == some 91) = false := by
+                      simp only [Bool.or_eq_false_iff] at h2; exact h2.1
+                    have hb := uriHost_bridge hhn (by simpa using hu) hlo hhead
+                    rw [h3] at hb
+                    simp only [Option.map_none, Option.map_eq_none_iff] at hb
+                    simp [hb]
         · simp [hlo]
 
 /-- Conversely, an accepted text has none of the defects. -/
 theorem C16_accepted_has_no_defect (ip : IpOracle) (u : Bytes) (o : Opts)
     (h : setRequestUri ip u = .ok o) :
-    ∃ p, urlsplit ip u = some p ∧ p.fragment = [] ∧ p.scheme ∈ coapSchemes ∧ o.scheme = p.scheme ∧
+    ∃ p, urlsplit ip u = some p ∧ 35 ∉ u ∧ p.fragment = [] ∧ p.scheme ∈ coapSchemes ∧
+      o.scheme = p.scheme ∧
       (∃ hn, hostnameOf p.netloc = some hn) ∧ hasUserinfo p.netloc = false ∧
       literalOk p.netloc = true ∧
       decodePath p.path = some o.path ∧ decodeQuery p.query = some o.query ∧
@@ -307,7 +328,8 @@ theorem C16_accepted_has_no_defect (ip : IpOracle) (u : Bytes) (o : Opts)
       o.uriPort = none := by
   obtain ⟨p, hsplit, A⟩ := setRequestUri_ok_inv h
   obtain ⟨hn, hhn, _⟩ := A.host
-  exact ⟨p, hsplit, A.fragment, A.scheme, A.oscheme, ⟨hn, hhn⟩, A.userinfo, A.literal, A.path,
+  exact ⟨p, hsplit, setRequestUri_ok_nohash h, (urlsplit_facts hsplit).fragment
+    (setRequestUri_ok_nohash h), A.scheme, A.oscheme, ⟨hn, hhn⟩, A.userinfo, A.literal, A.path,
     A.query, A.port, A.hostinfo, A.uriPort⟩
 
 /-- **An IP literal in brackets is the whole host** (new with the fix that rejects
@@ -359,6 +381,58 @@ theorem C16_uri_host_omitted_iff_ip_literal (ip : IpOracle) (u : Bytes) (o : Opt
     · exact absurd hnone hne
     · exact ⟨h, hdec, hsome⟩
 
+/-- **A host with a non-ASCII character is a registered name** (RFC 3986: `IPv4address` and
+`IP-literal` are made of ASCII digits, hex digits, `:`, `.` and an unreserved zone identifier):
+whatever the raw, non-ASCII character is — a decimal digit of another script (`coap://١.٢.٣.٤/`,
+`coap://10.0.0.१/`), a superscript or circled digit, a letter — an accepted text whose host
+contains it always carries a Uri-Host option (and `C16_uri_host_ascii_lower_only` says which). -/
+theorem C16_nonascii_host_is_name (ip : IpOracle) (laws : IpLaws ip) (u : Bytes) (o : Opts)
+    (hok : setRequestUri ip u = .ok o) (p : Parsed) (hsplit : urlsplit ip u = some p)
+    (c : Nat) (hc : c ∈ rawHostname p.netloc) (h128 : 128 ≤ c) : o.uriHost ≠ none :=
+  nonascii_host_is_name laws hok hsplit hc h128
+
+/-- **Lower-casing is ASCII lower-casing** (RFC 7252 §6.4 step 5; new with the fix that no longer
+takes the Uri-Host from `urllib`'s `.hostname`, whose `str.lower()` turned a raw U+212A KELVIN
+SIGN into `k`): the Uri-Host option of an accepted text is the percent-decoded text before the
+first `:` of the authority in which exactly the 26 bytes `A`..`Z` are replaced — every other byte,
+in particular every byte of a non-ASCII character, raw or escaped, is kept. -/
+theorem C16_uri_host_ascii_lower_only (ip : IpOracle) (u : Bytes) (o : Opts)
+    (hok : setRequestUri ip u = .ok o) (h : Bytes) (huh : o.uriHost = some h) :
+    ∃ p raw, urlsplit ip u = some p ∧ unquoteStrict (before 58 p.netloc) = some raw ∧
+      h = raw.map (fun c => if 65 ≤ c ∧ c ≤ 90 then c + 32 else c) := by
+  obtain ⟨p, hsplit, A⟩ := setRequestUri_ok_inv hok
+  obtain ⟨hn, hhn, hcase⟩ := A.host
+  rcases hcase with ⟨_, hnone⟩ | ⟨hlit, h0, hdec, hsome⟩
+  · rw [hnone] at huh; cases huh
+  · have hhead : (p.netloc.head? == some 91) = false := by
+      simp only [Bool.or_eq_false_iff] at hlit; exact hlit.1
+    have hb := uriHost_bridge hhn A.userinfo A.literal hhead
+    rw [hdec] at hb
+    cases hq : unquoteStrict (before 58 p.netloc) with
+    | none => rw [hq] at hb; cases hb
+    | some raw =>
+      rw [hq] at hb
+      simp only [Option.map_some, Option.some.injEq] at hb
+      refine ⟨p, raw, hsplit, hq, ?_⟩
+      rw [hsome] at huh
+      injection huh with huh
+      rw [← huh, ← hb]
+      unfold asciiLower
+      apply List.map_congr_left
+      intro c _
+      simp only [lowerChar, isUpper, Bool.and_eq_true, decide_eq_true_eq]
+
+/-- **The NFKC check of `urlsplit`** (`_checknetloc`): an authority with a character whose
+compatibility form holds one of `/ ? # @ :` (U+2100 `a/c`, fullwidth `：` …) makes `urlparse` raise
+`ValueError`; `set_request_uri` turns it into the documented `MalformedUrlError`. -/
+theorem C16_nfkc_delimiter_rejected (ip : IpOracle) (u : Bytes)
+    (h : nfkcBad (splitAuthority u).2.1 = true) : setRequestUri ip u = .malformed := by
+  have : urlsplit ip u = none := by
+    unfold urlsplit
+    simp only [h, ↓reduceIte]
+    split <;> rfl
+  simp [setRequestUri, this]
+
 /-- A text without any `:` has no scheme: it is never accepted and never taken for a
 Proxy-Uri; it is rejected as Incomplete, or as Malformed when it also carries a fragment or
 unbalanced brackets. -/
@@ -376,15 +450,15 @@ theorem C16_no_colon_rejected (ip : IpOracle) (u : Bytes) (h : 58 ∉ u) :
     unfold splitAuthority splitScheme
     simp only [hno, Bool.false_eq_true, ↓reduceIte]
     split <;> rfl
-  unfold setRequestUri urlsplit
-  by_cases hb : bracketsOk ip (splitAuthority u).2.1 = true
-  · simp only [hb, Bool.not_true, Bool.false_eq_true, ↓reduceIte, hsch]
-    unfold fromParsed
+  unfold setRequestUri
+  cases hsp : urlsplit ip u with
+  | none => right; rfl
+  | some p =>
+    have hps : p.scheme = [] := by rw [(urlsplit_facts hsp).scheme_eq, hsch]
     simp only
-    by_cases hf : after 35 (splitAuthority u).2.2 = []
-    · left; simp [hf]
-    · right; simp [hf]
-  · right; simp [hb]
+    by_cases h35 : 35 ∈ u
+    · right; simp [h35]
+    · left; simp [h35, fromParsed, hps]
 
 -- non-vacuity and sanity examples ---------------------------------------------------------
 
@@ -501,9 +575,9 @@ example : exText.wf ∧ setRequestUri exIp exText = .ok exTextOpts ∧ NotIpText
       isDigit, asciiLower, lowerChar, isNetlocDelim, bracketsOk, fromParsed, coapSchemes,
       hostnameOf, rawHostname, hostinfoOf, afterLast, lowerUntilPct, hasUserinfo, beforeLast,
       decodePath, decodeQuery, splitOn, decodeSegs, unquoteStrict, portOf, rawPort, allDigits,
-      decToNat, undecidedHostinfo, ip4Looking, utf8Valid, exTextOpts, literalOk,
+      decToNat, undecidedHostinfo, ip4Looking, utf8Valid, exTextOpts, literalOk, nfkcBad,
       unquote_escape (a := 55) (b := 101) (x := 7) (y := 14) [] (by decide) (by decide), unquote_nil,
-      unquote_cons_ne (c := 104) [] (by decide)]
+      unquote_cons_ne (c := 104) [] (by decide), unquote_cons_ne (c := 72) [] (by decide)]
 
 /-- the second alternative of `C16_uri_opts_uri` is not empty and cannot be merged into the first:
 the options of `coap://%31.2.3.4/` (Uri-Host "1.2.3.4", remote `%31.2.3.4`) compose to
@@ -570,6 +644,29 @@ example : unquote [37, 50, 70, 97, 37] = [47, 97, 37] := by
 example : utf8Valid [237, 159, 191] = true ∧ utf8Valid [237, 160, 128] = false ∧
     utf8Valid [244, 143, 191, 191] = true ∧ utf8Valid [244, 144, 128, 128] = false ∧
     utf8Valid [192, 175] = false := by decide
+
+/-- raw non-ASCII hosts: `coap://K/` with U+212A KELVIN SIGN (E2 84 AA) keeps the character,
+`coap://١.٢.٣.٤/` (ARABIC-INDIC digits, D9 A1 …) is a name, `coap://℀/` (U+2100, NFKC `a/c`) is
+malformed, and so is the empty fragment of `coap://h/a#` -/
+example : setRequestUri exIp [99,111,97,112,58,47,47,226,132,170,47]
+    = .ok { scheme := [99,111,97,112], hostinfo := [226,132,170], uriHost := some [226,132,170],
+            uriPort := none, path := [], query := [] } := by
+  have hu : unquote [226,132,170] = [226,132,170] := by
+    simp [unquote_cons_ne, unquote_nil]
+  have hs : urlsplit exIp [99,111,97,112,58,47,47,226,132,170,47]
+      = some { scheme := [99,111,97,112], netloc := [226,132,170], path := [47], query := [],
+               fragment := [] } := by decide
+  have hb : before 58 [226,132,170] = [226,132,170] := by decide
+  simp only [setRequestUri, hs]
+  rw [if_neg (by decide)]
+  unfold fromParsed
+  simp only [hb, unquoteStrict, hu]
+  decide
+example : ip4Looking [217,161,46,217,162,46,217,163,46,217,164] = false ∧
+    nfkcBad [226,132,128] = true ∧ nfkcBad [226,132,170] = false ∧
+    nfkcBad [239,188,154] = true := by decide
+example : setRequestUri exIp [99,111,97,112,58,47,47,226,132,128,47] = .malformed := by decide
+example : setRequestUri exIp [99,111,97,112,58,47,47,104,47,97,35] = .malformed := by decide
 
 /-- the rejection table is not vacuous: `//h/x` has no scheme, `coap://h/#f` has a fragment -/
 example : setRequestUri exIp [47, 47, 104, 47, 120] = .incomplete := by decide
